@@ -32,6 +32,13 @@ struct AllocEnv {
   uint64_t refused = 0;       // requests above cap
   uint64_t refused_size = 0;  // size of the last refused request
   void (*hook)(int is_delete, size_t size) = nullptr;
+  // Arena answers (address-order perturbation, non-sanitizer builds only):
+  // 0 = malloc, 1 = bump allocation at ascending addresses, 2 = descending.
+  int arena_mode = 0;
+  char *arena_base = nullptr;
+  size_t arena_size = 0;
+  size_t arena_used = 0;
+  void arena_reset() { arena_used = 0; }
   void reset_stats() {
     requests = largest = refused = refused_size = 0;
     live = peak = 0;
